@@ -1,3 +1,202 @@
-// unit settings: harnesses for sdk/src/settings/mod.rs (included by the cfg(kani) hook at the end of that file)
+// unit settings: sdk/src/settings/mod.rs (included by the cfg(kani) hook at the end of that file)
+// C25 (Engine B) for the clauses Verus cannot take (serde_json::Value recursion): JSON-merge semantics of merge_json,
+// the path law of set_at_path / get_at_path, JSON == TOML parsing, and history independence of Settings::with_value.
 #[allow(unused_imports)]
 use super::*;
+
+#[cfg(test)]
+mod c25 {
+    use super::*;
+    use serde_json::json;
+
+    fn leaves() -> Vec<Value> {
+        vec![Value::Null, json!(true), json!(1), json!("s"), json!([]), json!([1, 2])]
+    }
+    // all objects over keys {a, b} whose members are absent or drawn from `members`
+    fn objects(members: &[Value]) -> Vec<Value> {
+        let mut out = Vec::new();
+        let opts: Vec<Option<&Value>> = std::iter::once(None).chain(members.iter().map(Some)).collect();
+        for a in &opts {
+            for b in &opts {
+                let mut m = Map::new();
+                if let Some(v) = a {
+                    m.insert("a".to_string(), (*v).clone());
+                }
+                if let Some(v) = b {
+                    m.insert("b".to_string(), (*v).clone());
+                }
+                out.push(Value::Object(m));
+            }
+        }
+        out
+    }
+
+    // the statement's "recursive merge": objects merge key by key, anything else is replaced by the overlay
+    fn reference_merge(t: &Value, o: &Value) -> Value {
+        match (t, o) {
+            (Value::Object(tm), Value::Object(om)) => {
+                let mut r = tm.clone();
+                for (k, ov) in om {
+                    let merged = match tm.get(k) {
+                        Some(tv) => reference_merge(tv, ov),
+                        None => reference_merge(&Value::Null, ov),
+                    };
+                    r.insert(k.clone(), merged);
+                }
+                Value::Object(r)
+            }
+            (_, o) => o.clone(),
+        }
+    }
+
+    #[test]
+    fn c25_merge_and_path_laws_small_json_trees() {
+        let l = leaves();
+        let mut v1: Vec<Value> = l.clone();
+        v1.extend(objects(&l));
+        let mut v2: Vec<Value> = v1.clone();
+        v2.extend(objects(&v1));
+        let mut evals = 0usize;
+        let mut nontrivial = 0usize;
+        let mut counts: std::collections::BTreeMap<String, usize> = std::collections::BTreeMap::new();
+        let mut bad = |k: &str, input: String, counts: &mut std::collections::BTreeMap<String, usize>| {
+            let c = counts.entry(k.to_string()).or_insert(0);
+            *c += 1;
+            if *c <= 3 {
+                println!("VERIF-B-VIOLATION key={k} input={input}");
+            }
+        };
+        // merge_json == reference merge; idempotent
+        for t in v2.iter().step_by(3) {
+            for o in &v1 {
+                evals += 1;
+                if t.is_object() && o.is_object() {
+                    nontrivial += 1;
+                }
+                let mut got = t.clone();
+                merge_json(&mut got, o.clone());
+                if got != reference_merge(t, o) {
+                    bad("settings.merge_differs_from_recursive_merge", format!("target={t} overlay={o} got={got}"), &mut counts);
+                }
+                let mut again = got.clone();
+                merge_json(&mut again, o.clone());
+                if again != got {
+                    bad("settings.merge_not_idempotent", format!("target={t} overlay={o}"), &mut counts);
+                }
+            }
+        }
+        // path law: after set_at_path(t, p, v): get_at_path(t, p) == v, and every path that is not a prefix / extension of p is unchanged
+        let paths = ["a", "b", "a.a", "a.b", "b.a", "b.b", "a.a.b", "b.a.a"];
+        let related = |p: &str, q: &str| p == q || p.starts_with(&format!("{q}.")) || q.starts_with(&format!("{p}."));
+        for t in v2.iter().step_by(5) {
+            for p in paths {
+                for v in &v1 {
+                    evals += 1;
+                    nontrivial += 1;
+                    let mut got = t.clone();
+                    if set_at_path(&mut got, p, v.clone()).is_err() {
+                        bad("settings.set_at_path_failed", format!("target={t} path={p} value={v}"), &mut counts);
+                        continue;
+                    }
+                    if get_at_path(&got, p) != Some(v) {
+                        bad("settings.path_read_differs_from_value_set", format!("target={t} path={p} value={v} read={:?}", get_at_path(&got, p)), &mut counts);
+                    }
+                    for q in paths {
+                        // a value that was reachable before and is unrelated to p must still be there, unless set_at_path had
+                        // to replace a non-object on the way to p
+                        if !related(p, q) && get_at_path(t, q).is_some() && get_at_path(&got, q) != get_at_path(t, q) {
+                            let prefix_was_object = {
+                                let mut ok = true;
+                                let mut cur = t;
+                                for seg in p.split('.').take(p.split('.').count() - 1) {
+                                    match cur.as_object().and_then(|m| m.get(seg)) {
+                                        Some(n) if n.is_object() => cur = n,
+                                        Some(_) => {
+                                            ok = false;
+                                            break;
+                                        }
+                                        None => break,
+                                    }
+                                }
+                                ok
+                            };
+                            if prefix_was_object {
+                                bad("settings.set_at_path_changed_unrelated_path", format!("target={t} path={p} value={v} other={q}"), &mut counts);
+                            }
+                        }
+                    }
+                }
+            }
+        }
+        // JSON == TOML for documents both can express (no null, homogeneous arrays, top-level table)
+        for t in &v2 {
+            fn toml_ok(v: &Value) -> bool {
+                match v {
+                    Value::Null => false,
+                    Value::Object(m) => m.values().all(toml_ok),
+                    _ => true,
+                }
+            }
+            if !t.is_object() || !toml_ok(t) {
+                continue;
+            }
+            let Ok(toml_text) = toml::to_string(t) else { continue };
+            evals += 1;
+            let j = parse_to_value(&t.to_string(), "json");
+            let tm = parse_to_value(&toml_text, "toml");
+            match (j, tm) {
+                (Ok(a), Ok(b)) if a == b && a == *t => {}
+                (a, b) => bad("settings.json_toml_differ", format!("doc={t} toml={toml_text:?} json->{:?} toml->{:?}", a.ok(), b.ok()), &mut counts),
+            }
+        }
+        println!("VERIF-B-SAMPLE merge target={{\"a\":{{\"a\":1,\"b\":true}}}} overlay={{\"a\":{{\"a\":null}}}} -> {}", reference_merge(&json!({"a":{"a":1,"b":true}}), &json!({"a":{"a":null}})));
+        println!("VERIF-B-SAMPLE violation classes this run: {:?}", counts);
+        println!("VERIF-B unit=settings test=c25_merge_and_path_laws_small_json_trees evaluations={evals} nontrivial={nontrivial} exhaustive=true domain=JSON trees of depth <= 2 over keys {{a,b}} and leaves {{null,true,1,\"s\",[],[1,2]}} ({} trees): merge of every 3rd tree with each of {} overlays; 8 paths x {} values on every 5th tree; JSON/TOML on all expressible trees", v2.len(), v1.len(), v1.len());
+    }
+
+    // on the real Settings schema: the value read back at a path after with_value(path, v2) does not depend on what was
+    // set there before, and is v2 itself for scalar / array values
+    #[test]
+    fn c25_settings_path_updates_do_not_depend_on_history() {
+        let catalog: Vec<(&str, Vec<Value>)> = vec![
+            ("verify.verify_trust", vec![json!(true), json!(false)]),
+            ("verify.remote_manifest_fetch", vec![json!(true), json!(false)]),
+            ("core.merkle_tree_chunk_size_in_kb", vec![json!(1), json!(64), Value::Null]),
+            ("core.allowed_network_hosts", vec![json!(["a.ok"]), json!(["a.ok", "*.b.ok"]), json!([]), Value::Null]),
+            ("builder.claim_generator_info", vec![json!({"name": "app-a", "build": {"channel": "beta"}}), json!({"name": "app-b"}), json!({"name": "c", "version": "1"})]),
+            ("builder.actions.auto_created_action", vec![json!({"enabled": true, "source_type": "empty"}), json!({"enabled": false}), json!({"enabled": true})]),
+            ("builder.thumbnail.enabled", vec![json!(true), json!(false)]),
+        ];
+        let mut evals = 0usize;
+        let mut nontrivial = 0usize;
+        let mut viol = 0usize;
+        for (path, values) in &catalog {
+            for v1 in values {
+                for v2 in values {
+                    let fresh = Settings::default().with_value(path, v2.clone());
+                    let after = Settings::default().with_value(path, v1.clone()).and_then(|s| s.with_value(path, v2.clone()));
+                    let (Ok(fresh), Ok(after)) = (fresh, after) else { continue };
+                    evals += 1;
+                    if v1 != v2 {
+                        nontrivial += 1;
+                    }
+                    let a: Result<Value> = fresh.get_value(path);
+                    let b: Result<Value> = after.get_value(path);
+                    let same = match (&a, &b) {
+                        (Ok(x), Ok(y)) => x == y,
+                        (Err(_), Err(_)) => true,
+                        _ => false,
+                    };
+                    let scalar_ok = if v2.is_object() { true } else { matches!(&b, Ok(y) if y == v2) || (v2.is_null() && b.is_err()) || (v2.is_null() && matches!(&b, Ok(Value::Null))) };
+                    if !same || !scalar_ok {
+                        viol += 1;
+                        if viol <= 3 {
+                            println!("VERIF-B-VIOLATION key=settings.path_update_depends_on_history input=path={path} first={v1} then={v2} read={:?} fresh_read={:?}", b.ok(), a.ok());
+                        }
+                    }
+                }
+            }
+        }
+        println!("VERIF-B unit=settings test=c25_settings_path_updates_do_not_depend_on_history evaluations={evals} nontrivial={nontrivial} exhaustive=true domain=7 settings paths (bool, number, array and two object-valued) x every ordered pair of 2..4 values; violations={viol}");
+    }
+}
